@@ -23,6 +23,14 @@ class AssemblyPermutation:
     """assembling the permuted shell list gives the index-permuted array (all permutations, every
     class, labelled opaque blocks with the relation the class's block routine satisfies)"""
 
+    fp = True  # cross-check: the same contract on the unmodified float64 code at sampled inputs (bounded)
+
+    def fp_shapes(self, tier):
+        sh = self.shapes(tier)
+        step = max(1, len(sh) // (6 if tier == "quick" else 24))
+        return sh[::step][:(6 if tier == "quick" else 24)]
+
+
     function = "Base{One,TwoSymm,FourSymm}.construct_array_mix on permuted shell lists"
     sparse = True
 
@@ -79,6 +87,14 @@ class AssemblyPermutation:
 class BlockOrientation:
     """B(s2, s1)[m2,c2,m1,c1,..] = B(s1, s2)[m1,c1,m2,c2,..] (real symmetric operators) or its complex
     conjugate (momentum-type operators): two separate runs of the real block routine compared with each other"""
+
+    fp = True  # cross-check: the same contract on the unmodified float64 code at sampled inputs (bounded)
+
+    def fp_shapes(self, tier):
+        sh = self.shapes(tier)
+        step = max(1, len(sh) // (6 if tier == "quick" else 24))
+        return sh[::step][:(6 if tier == "quick" else 24)]
+
 
     function = "construct_array_contraction(s1, s2) vs (s2, s1) of Overlap / Kinetic / Moment / Momentum / AngularMomentum / PointCharge"
 
